@@ -76,6 +76,11 @@ class DefaultList(Generic[T]):
     def __iter__(self) -> Iterator[T]:
         return iter(self._list)
 
+    def __eq__(self, other: object) -> bool:
+        if not isinstance(other, DefaultList):
+            return NotImplemented
+        return self._list == other._list
+
     def __str__(self) -> str:
         return str(self._list)
 
@@ -94,6 +99,11 @@ class Function:
         self._value: List[Optional[int]] = []
         self._preimage_count: DefaultList[int] = DefaultList(int)
         self._infinity_count: int = 0
+
+    def __eq__(self, other: object) -> bool:
+        if not isinstance(other, Function):
+            return NotImplemented
+        return self.__dict__ == other.__dict__
 
     @property
     def preimage_count(self) -> List[int]:
@@ -201,6 +211,11 @@ class TableMethod:
         self._processing_queue: Deque[int] = Deque()
         self._current_gap: Tuple[int, int] = (1, 1)
         self._rule_holding_extra_terms: Set[int] = set()
+
+    def __eq__(self, other: object) -> bool:
+        if not isinstance(other, TableMethod):
+            return NotImplemented
+        return self.__dict__ == other.__dict__
 
     @property
     def function(self) -> Dict[int, Optional[int]]:
@@ -639,6 +654,16 @@ class RuleDBForest(RuleDBAbstract):
         self.table_method = TableMethod()
         self._already_empty: Set[int] = set()
         self._rule_cache = tuple(rule_cache)
+
+    def __eq__(self, other: object) -> bool:
+        """Check if all stored information is the same."""
+        if not isinstance(other, self.__class__):
+            return NotImplemented
+        return (
+            self.reverse == other.reverse
+            and self.table_method == other.table_method
+            and self._already_empty == other._already_empty
+        )
 
     # Implementation of RuleDBAbstract
 
